@@ -49,14 +49,14 @@ Record c16_case := Case {
 
 Definition c16_ok (c:c16_case) : bool :=
   (* 1. the model produces the statements the real code produced *)
-  match create table_order column_order (fuel_of (k_old c)) id_ord (k_old c) with
+  match create depth_stop table_order column_order (fuel_of (k_old c)) id_ord (k_old c) with
   | Ok l => list_eqb ddl_eqb l (k_create c)
   | OutOfFuel => false
   end &&
   match k_new c, k_script c with
   | None, None => true
   | Some n, Some s =>
-      match delta delta_cfg column_order (Nat.max (fuel_of (k_old c)) (fuel_of n)) id_ord (k_old c) n with
+      match delta depth_stop delta_cfg column_order (Nat.max (fuel_of (k_old c)) (fuel_of n)) id_ord (k_old c) n with
       | Ok l => list_eqb ddl_eqb l s
       | OutOfFuel => false
       end
